@@ -190,7 +190,38 @@ class PEngine(FullEngine):
         st.pc += ax
         return self.new_root(st, t.v, R)
 
+    def dictcomp2(self, e, st, hint):
+        """{key: value for g in C for x in g}   over a list of lists C: one entry per (a, b) = (index of the inner list, index in it), later entries overwrite
+        earlier ones with the same key (Skolem functions JA, JB give the last such entry), every key comes from some entry (WA, WB)"""
+        g1, g2 = e.generators
+        if g1.ifs or g2.ifs or not (isinstance(g1.target, ast.Name) and isinstance(g2.target, ast.Name) and isinstance(g2.iter, ast.Name) and g2.iter.id == g1.target.id):
+            raise Unsupported('dict comprehension shape')
+        if not isinstance(hint, TDict): raise Unsupported('dict comprehension without declared type')
+        src = self.as_list(self.expr(g1.iter, st))
+        if not (isinstance(src, PRef) and isinstance(src.t, TList) and isinstance(src.t.elem, TList)): raise Unsupported('nested dict comprehension: not a list of lists')
+        self.need_not_none(st, src, ast.unparse(g1.iter))
+        t = hint; kth = t.kth(); Cc = self.term(st, src); oth = src.t.th(); ith = src.t.elem.th(); et = src.t.elem.elem
+        a, b = FreshConst(IntSort(), 'da'), FreshConst(IntSort(), 'db'); mark = len(FRESH_LOG)
+        rng_ab = And(0 <= a, a < oth.Len(Cc), 0 <= b, b < ith.Len(oth.At(Cc, a)))
+        sub = st.clone(); sub.pc.append(rng_ab); base = len(sub.pc)
+        sub.env[g1.target.id] = self.from_term(sub, src.t.elem, oth.At(Cc, a), frozen=True); sub.env[g2.target.id] = self.from_term(sub, et, ith.At(oth.At(Cc, a), b))
+        key = self.coerce(sub, self.expr(e.key, sub, hint=t.k), t.k); val = self.coerce(sub, self.expr(e.value, sub, hint=t.v), t.v)
+        facts = sub.pc[base:]; created = FRESH_LOG[mark:]
+        key_ab, val_ab, phi = self.skolemise([a, b], created, [key, val, And(*facts) if facts else BoolVal(True)])
+        R = FreshConst(t.sort(), 'dcomp2'); x = FreshConst(t.k.sort(), 'x'); FRESH_LOG.pop()
+        WA = Function('dwa_%d' % R.get_id(), t.k.sort(), IntSort()); WB = Function('dwb_%d' % R.get_id(), t.k.sort(), IntSort())
+        JA = Function('dja_%d' % R.get_id(), IntSort(), IntSort(), IntSort()); JB = Function('djb_%d' % R.get_id(), IntSort(), IntSort(), IntSort())
+        at = lambda f, aa, bb: substitute(f, (a, aa), (b, bb))
+        pats = [ith.At(oth.At(Cc, a), b)]
+        st.pc += [kth.Nodup(t.keys(R)),
+                  ForAll([a, b], Implies(rng_ab, And(phi, t.has(R, key_ab))), patterns=pats),
+                  ForAll([x], Implies(t.has(R, x), And(at(rng_ab, WA(x), WB(x)), at(phi, WA(x), WB(x)), at(key_ab, WA(x), WB(x)) == x)), patterns=[t.has(R, x)]),
+                  ForAll([a, b], Implies(rng_ab, And(at(rng_ab, JA(a, b), JB(a, b)), Or(JA(a, b) > a, And(JA(a, b) == a, JB(a, b) >= b)), at(phi, JA(a, b), JB(a, b)),
+                                                     at(key_ab, JA(a, b), JB(a, b)) == key_ab, t.get(R, key_ab) == at(val_ab, JA(a, b), JB(a, b)))), patterns=pats)]
+        return self.new_root(st, t, R)
+
     def dictcomp(self, e, st, hint):
+        if len(e.generators) == 2: return self.dictcomp2(e, st, hint)
         if len(e.generators) != 1 or e.generators[0].ifs: raise Unsupported('dict comprehension shape')
         g0 = e.generators[0]
         # {k: v for k, v in D.items()} with MUTABLE values: a shallow copy -- the new dict shares its value objects with D.  It is modelled as an alias of D
